@@ -268,7 +268,7 @@ def finish(rep: Report, max_replays_per_sig=4):
         "inconclusive": rep.inconclusive[:20],
         "harness_errors": rep.harness_errors[:20],
         "crosshair": rep.crosshair,
-        "cvc5": rep.cvc5,
+        "cvc5": {k.split(":", 1)[1]: v for k, v in nq.items() if k.startswith("cvc5:")},
         "exit_code": rc,
         "solver": "z3 " + __import__("z3").get_version_string(),
     }
@@ -381,6 +381,8 @@ def run_plan(rep, plan, scenarios, opts, workers=None, canaries=()):
     limit = float(opts.get("scenario_wall_s", 240 if rep.tier == "quick" else 1500))
     opts = dict(opts)
     opts.setdefault("deadline_s", limit * 0.8)
+    if rep.tier == "thorough":
+        opts.setdefault("cvc5_recheck", 25)  # per scenario: z3 `unsat` verdicts re-decided by cvc5
     results = [None] * len(items)
 
     def child(conn, arg):
